@@ -467,6 +467,12 @@ impl<'a> Gen<'a> {
             }
             6 => {
                 // read a cell
+                if self.pct(30) {
+                    if let Some((c, Ty::Int)) = self.cell_in_container() {
+                        self.tag("expr:deref-through-container");
+                        return (E::Un("*", Box::new(c)), Ty::Int);
+                    }
+                }
                 if let Some((c, _)) = self.var_of(&Ty::mutc(Ty::Int)) {
                     self.tag("expr:deref");
                     (E::Un("*", Box::new(c)), Ty::Int)
@@ -1041,10 +1047,23 @@ impl<'a> Gen<'a> {
             if !cells.is_empty() {
                 let (c, ct) = self.rng.pick(&cells).clone();
                 let n = self.name();
-                let (e, t) = match self.rng.below(4) {
+                let (e, t) = match self.rng.below(7) {
                     0 => (E::Var(c), ct),
                     1 => (E::Arr(vec![E::Var(c.clone()), E::Var(c)]), Ty::arr(ct)),
                     2 => (E::Tup(vec![E::Var(c), E::Int(self.small_int())]), Ty::Tup(vec![ct, Ty::Int])),
+                    3 => {
+                        // every element of `[c; n]` is the cell itself
+                        self.tag("stm:alias-cell-repeat");
+                        (E::Rep(Box::new(E::Var(c)), Box::new(E::Int(self.rng.range(1, 3)))), Ty::arr(ct))
+                    }
+                    4 => {
+                        self.tag("stm:alias-cell-nested");
+                        (E::Arr(vec![E::Arr(vec![E::Var(c.clone())]), E::Rep(Box::new(E::Var(c)), Box::new(E::Int(2)))]), Ty::arr(Ty::arr(ct)))
+                    }
+                    5 => {
+                        self.tag("stm:alias-cell-tuple-repeat");
+                        (E::Rep(Box::new(E::Tup(vec![E::Var(c), E::Int(self.small_int())])), Box::new(E::Int(2))), Ty::arr(Ty::Tup(vec![ct, Ty::Int])))
+                    }
                     _ => {
                         let mut f = BTreeMap::new();
                         f.insert("a".to_string(), ct);
@@ -1316,6 +1335,27 @@ impl<'a> Gen<'a> {
         Some(self.rng.pick(&cells).clone())
     }
 
+    /// an expression denoting a cell that sits inside a container variable (`v[0]`, `v.0`, `v.a`, `v[1][0]`, `v[0].0`):
+    /// writes and reads through it must reach the cell the container was built from
+    fn cell_in_container(&mut self) -> Option<(E, Ty)> {
+        fn path(e: E, t: &Ty, depth: u32) -> Option<(E, Ty)> {
+            match t {
+                Ty::Mut(inner) => Some((e, (**inner).clone())),
+                Ty::Arr(el) if depth < 3 => path(E::Index(Box::new(e), Box::new(E::Int(0))), el, depth + 1),
+                Ty::Tup(ts) if depth < 3 => ts.iter().position(|t| matches!(t, Ty::Mut(_))).and_then(|i| path(E::TupAcc(Box::new(e), i), &ts[i], depth + 1)),
+                Ty::Struct(fs) if depth < 3 => fs.iter().find(|(_, t)| matches!(t, Ty::Mut(_))).and_then(|(n, t)| path(E::Field(Box::new(e), n.clone()), t, depth + 1)),
+                _ => None,
+            }
+        }
+        let counters = self.counters.clone();
+        let vars: Vec<(String, Ty)> = self.vars_where(|t| matches!(t, Ty::Arr(_) | Ty::Tup(_) | Ty::Struct(_))).into_iter().filter(|(n, _)| !counters.contains(n)).collect();
+        let cands: Vec<(E, Ty)> = vars.into_iter().filter_map(|(n, t)| path(E::Var(n), &t, 0)).filter(|(_, t)| matches!(t, Ty::Int | Ty::Str | Ty::Bool)).collect();
+        if cands.is_empty() {
+            return None;
+        }
+        Some(self.rng.pick(&cands).clone())
+    }
+
     /// statements of a loop body (may break / continue)
     fn loop_body(&mut self, depth: u32) -> Vec<S> {
         let mut body = Vec::new();
@@ -1325,7 +1365,35 @@ impl<'a> Gen<'a> {
                 let (c, _) = self.expr(&Ty::Bool, depth.min(1));
                 let exit = if self.pct(50) { S::Break } else { S::Continue };
                 self.tag(if exit == S::Break { "ctrl:break" } else { "ctrl:continue" });
-                body.push(S::If(c, Box::new(S::Block(vec![exit])), None));
+                // where the exit stands: then-branch, else-branch, a nested block, a match arm
+                let st = match self.rng.below(8) {
+                    0 => {
+                        self.tag("ctrl:exit-in-else");
+                        let mut other = Vec::new();
+                        self.push();
+                        self.stm_into(&mut other, depth.min(1));
+                        self.pop();
+                        S::If(c, Box::new(S::Block(other)), Some(Box::new(S::Block(vec![exit]))))
+                    }
+                    1 => {
+                        self.tag("ctrl:exit-in-then-with-else");
+                        let mut other = Vec::new();
+                        self.push();
+                        self.stm_into(&mut other, depth.min(1));
+                        self.pop();
+                        S::If(c, Box::new(S::Block(vec![exit])), Some(Box::new(S::Block(other))))
+                    }
+                    2 => {
+                        self.tag("ctrl:exit-in-nested-block");
+                        S::Block(vec![S::If(c, Box::new(S::Block(vec![S::Block(vec![exit])])), None)])
+                    }
+                    3 => {
+                        self.tag("ctrl:exit-in-match-arm");
+                        S::Match(c, vec![Arm::Value(vec![E::Bool(true)], Box::new(S::Block(vec![exit]))), Arm::Other(Box::new(S::Block(vec![])))])
+                    }
+                    _ => S::If(c, Box::new(S::Block(vec![exit])), None),
+                };
+                body.push(st);
             } else {
                 self.stm_into(&mut body, depth);
             }
@@ -1478,6 +1546,12 @@ impl<'a> Gen<'a> {
                     S::If(E::Bin(">=", Box::new(E::Un("*", Box::new(E::Var(k)))), Box::new(E::Int(limit))), Box::new(S::Block(vec![S::Break])), None),
                 ];
                 body.extend(self.loop_body(d));
+                if self.pct(35) {
+                    // the "breakable block" idiom: the body ends in an unconditional break (exits taken earlier in the
+                    // body still belong to this loop; a `continue` starts the next pass, bounded by the counter)
+                    self.tag("stm:loop-ending-in-break");
+                    body.push(S::Break);
+                }
                 self.pop();
                 self.tag("stm:loop");
                 S::Loop(Box::new(S::Block(body)))
@@ -1514,6 +1588,16 @@ impl<'a> Gen<'a> {
 
     fn effect_stm(&mut self, depth: u32) -> S {
         // assignment to a visible cell, or a bare effectful expression
+        if self.pct(25) {
+            if let Some((target, inner)) = self.cell_in_container() {
+                let (op, rhs) = match inner {
+                    Ty::Int => (*self.rng.pick(&["=", "+=", "*=", "^="]), self.expr(&Ty::Int, depth.min(1)).0),
+                    other => ("=", self.expr(&other, depth.min(1)).0),
+                };
+                self.tag("assign:through-container");
+                return S::Expr(E::Bin(op, Box::new(target), Box::new(rhs)));
+            }
+        }
         let cell = self.assignable_cell(None);
         if cell.is_some() && self.pct(70) {
             let (n, t) = cell.unwrap();
